@@ -90,6 +90,14 @@ fn log_event(kind: &'static str, text: String) -> bool {
 
 // returns true when the line was captured and must not go to stdout
 pub fn capture(message: &str) -> bool {
+    // the process-level trace also records that a search thread is about to print an info line (only its first pv move:
+    // which board the line belongs to); stamped before the line goes out
+    if message.starts_with("info pv ") {
+        let first = message[8..].split(' ').next().unwrap_or("").to_string();
+        with_sink(|f, seq| {
+            let _ = writeln!(f, "{{\"ev\":\"srch_print\",\"seq\":{},\"pv1\":\"{}\"}}", seq, first);
+        });
+    }
     log_event("out", message.to_string())
 }
 
